@@ -20,7 +20,13 @@ TRUSTED = [
     "node of an Any value, scalar conversion = 1 step per token), not about Go instruction counts: wall time of the real code is "
     "observed only by codec.stress / codec.fuzz (per-call bound 1.5 s + 5 us/byte)",
     "document-level relations of C03 (J5V/Codec/Doc.lean: Spells* = admissible spellings of a message, Fault* = a fault anywhere, "
-    "queryDoc) and of C08 (J5V/Codec/Wire.lean: Conforms) are hand-written specifications, defined by recursion on the document only",
+    "Stored* = what an accepted document stored, queryDoc) and of C08 (J5V/Codec/Wire.lean: Conforms) are hand-written specifications, "
+    "defined by recursion on the document only",
+    "Any / j5_json: `Oracle.chunk` is a specification-side field of the model (default none; never set by the driver, never read by the "
+    "decoder model): the encoder model keeps a recognised j5_json chunk in parsed form only if it renders to exactly the stored bytes, so "
+    "the bytes it writes do not depend on the field (chunkNode_render, proved). The byte-level theorems about messages holding an Any "
+    "assume `ChunkLaws` (a recognised chunk is compact JSON as json.Compact / the codec writes it) — trivially true for the real oracles — "
+    "and speak about stored j5_json of that compact form only",
 ]
 
 ASSUMPTIONS = [
